@@ -690,3 +690,165 @@ var ruleInitOnly = &Rule{
 		return out
 	},
 }
+
+// --- R-SCOPE: the continuation never runs while @ is rebound ---------------------------------
+
+// ownNodeParam: v is (an assertion / conversion / merge of) a node-typed
+// parameter of fn, i.e. the very step fn is executing, not one of its children.
+func (p *Prog) ownNodeParam(v ssa.Value, depth int) *ssa.Parameter {
+	if depth > 8 {
+		return nil
+	}
+	switch x := v.(type) {
+	case *ssa.Parameter:
+		t := x.Type()
+		if types.Identical(t, types.Type(p.A.Node)) || types.Implements(t, p.A.NodeIface) {
+			return x
+		}
+	case *ssa.TypeAssert:
+		return p.ownNodeParam(x.X, depth+1)
+	case *ssa.Extract:
+		if ta, ok := x.Tuple.(*ssa.TypeAssert); ok && x.Index == 0 {
+			return p.ownNodeParam(ta.X, depth+1)
+		}
+	case *ssa.ChangeInterface:
+		return p.ownNodeParam(x.X, depth+1)
+	case *ssa.MakeInterface:
+		return p.ownNodeParam(x.X, depth+1)
+	case *ssa.ChangeType:
+		return p.ownNodeParam(x.X, depth+1)
+	case *ssa.Phi:
+		for _, e := range x.Edges {
+			if q := p.ownNodeParam(e, depth+1); q != nil {
+				return q
+			}
+		}
+	}
+	return nil
+}
+
+// instrsFrom lists the instructions reachable from (after) start in fn's CFG,
+// not going past an instruction for which stop returns true.
+func instrsFrom(start ssa.Instruction, stop func(ssa.Instruction) bool) []ssa.Instruction {
+	var out []ssa.Instruction
+	seen := map[*ssa.BasicBlock]bool{}
+	var walk func(b *ssa.BasicBlock, from int)
+	walk = func(b *ssa.BasicBlock, from int) {
+		for i := from; i < len(b.Instrs); i++ {
+			ins := b.Instrs[i]
+			if stop(ins) {
+				return
+			}
+			out = append(out, ins)
+		}
+		for _, s := range b.Succs {
+			if !seen[s] {
+				seen[s] = true
+				walk(s, 0)
+			}
+		}
+	}
+	b := start.Block()
+	for i, ins := range b.Instrs {
+		if ins == start {
+			walk(b, i+1)
+		}
+	}
+	return out
+}
+
+var ruleScope = &Rule{
+	Name: "R-SCOPE", NeedSSA: true,
+	Doc: "while the field holding @ is rebound (from the store of a new item until the store that writes the saved value back, or until the function returns when the restore is deferred) no status-returning evaluation receives the function's own node: that call would evaluate the rest of the outer chain, which must see the outer @",
+	Run: func(p *Prog) *RuleOut {
+		out := newOut("R-SCOPE")
+		cur := p.fieldReadInConstArm("ConstCurrent")
+		if cur == nil {
+			out.undecided("field holding @", "-", "", "anchor unresolved: no Executor field is read in the ConstCurrent arm")
+			return out
+		}
+		regions, calls := 0, 0
+		check := func(fn *ssa.Function, start ssa.Instruction, how string) {
+			regions++
+			ins := instrsFrom(start, func(i ssa.Instruction) bool {
+				st, ok := i.(*ssa.Store)
+				if !ok {
+					return false
+				}
+				if f, _ := p.execFieldOf(st.Addr); f != cur {
+					return false
+				}
+				ld, _ := p.traceSaved(fn, st.Val, st, 0)
+				return ld != nil
+			})
+			key := fmt.Sprintf("%s rebinds @ (%s)", fnName(fn), how)
+			var bad []string
+			for _, i := range ins {
+				c, ok := i.(*ssa.Call)
+				if !ok {
+					continue
+				}
+				sig := calleeSig(c)
+				if sig == nil || len(p.moduleCallees(c)) == 0 {
+					continue
+				}
+				calls++
+				if p.pairKind(sig) != "status" {
+					continue
+				}
+				for _, a := range c.Call.Args {
+					if q := p.ownNodeParam(a, 0); q != nil {
+						bad = append(bad, fmt.Sprintf("%s: %s receives the step's own node %s while @ still denotes the inner item", p.pos(c.Pos()), calleeName(&c.Call), q.Name()))
+					}
+				}
+			}
+			if len(bad) > 0 {
+				out.viol(key, p.pos(start.Pos()), fnName(fn), "the rest of the chain is evaluated inside the rebound region, so steps after the filter see the filter's item as @: "+bad[0], bad...)
+			} else {
+				out.ok(key, p.pos(start.Pos()), fnName(fn), fmt.Sprintf("%d instructions in the rebound region, no continuation among them", len(ins)))
+			}
+		}
+		for _, sc := range p.classifyState() {
+			if sc.Field != cur || sc.Fn.Parent() != nil {
+				continue
+			}
+			switch sc.Class {
+			case "defer-restore", "explicit-restore", "unclassified":
+				for _, s := range p.execStores(sc.Fn) {
+					if s.Field != cur {
+						continue
+					}
+					if ld, _ := p.traceSaved(sc.Fn, s.Store.Val, s.Store, 0); ld != nil {
+						continue // the restore itself
+					}
+					check(sc.Fn, s.Store, sc.Class)
+				}
+			case "restorer-helper":
+				// the region lies in the callers: from the helper call to their exits
+				if n := p.CG.Nodes[sc.Fn]; n != nil {
+					for _, ed := range n.In {
+						if ed.Site != nil && inModule(ed.Caller.Func) {
+							check(ed.Caller.Func, ed.Site, "through "+fnName(sc.Fn))
+						}
+					}
+				}
+			}
+		}
+		out.Counts["rebound_regions"] = regions
+		out.Floors["rebound_regions"] = 1
+		out.Counts["module_calls_in_regions"] = calls
+		out.Floors["module_calls_in_regions"] = 1
+		return out
+	},
+}
+
+// moduleCallees: resolved callees of c that belong to the module.
+func (p *Prog) moduleCallees(c ssa.CallInstruction) []*ssa.Function {
+	var out []*ssa.Function
+	for _, f := range p.calleesOf(c) {
+		if inModule(f) {
+			out = append(out, f)
+		}
+	}
+	return out
+}
